@@ -273,7 +273,7 @@ func genRun(r *sim.Rng, p *GPlan, faulty bool, odd bool) GRun {
 		case 1:
 			run.CA.Mode, run.CA.FailAt = "panic", r.Intn(2)
 		case 2, 3:
-			run.Faults = append(run.Faults, refagent.PeerFault{At: r.Intn(8), Fault: pick(r, refagent.AllFaults)})
+			run.Faults = append(run.Faults, refagent.PeerFault{At: r.Intn(8), Fault: pick(r, append(append([]string(nil), refagent.AllFaults...), refagent.FaultCloseLost, refagent.FaultCloseLost))})
 		case 4:
 			run.StubPanic = pick(r, []string{"Name", "Generate", "CSRs", "AddCertsToAgent"})
 		}
